@@ -283,12 +283,8 @@ func RunBehaviour(b *Behaviour, ks *sut.KeySet, workRoot string) (res BehResult)
 			if tarBin, err := exec.LookPath("tar"); err == nil {
 				res.Checks++
 				out, err := exec.Command(tarBin, "--ignore-zeros", "-t", "-f", inst.Drive).Output() // member names on stdout, warnings on stderr
-				lines := 0
-				for _, l := range strings.Split(strings.TrimRight(string(out), "\n"), "\n") {
-					if l != "" {
-						lines++
-					}
-				}
+				// one line per member; a member with an empty name (the root as a rebuilt index spells it) is an empty line
+				lines := strings.Count(string(out), "\n")
 				if err != nil || lines != len(scan.Recs) {
 					add("C05", n, st.Call, "GNU tar --ignore-zeros lists %d members (err %v), the tape holds %d records: %s", lines, err, len(scan.Recs), trunc(string(out), 300))
 				}
@@ -668,11 +664,18 @@ func compareC04(b *Behaviour, w *World, st *Step, n int, inst *sut.Instance, sca
 			add("C04", n, st.Call, "restoring directory %s (%d files) failed: %v", dp, nfiles, rerr)
 			continue
 		}
+		// an index rebuilt by Initialize spells names relative to its root "": the prefix is not cut off then
+		fullSpelling := inst.Root == ""
 		for q, e := range view {
 			if e.Kind != "file" || !strings.HasPrefix(q, dp+"/") || e.RdErr != "" {
 				continue
 			}
+			// where the member lands below the target depends on how the index spells names (a rebuilt index stores
+			// them relative to the root and the prefix is not cut off); C04 is about the record that is fetched
 			dst := filepath.ToSlash(filepath.Join("/out", strings.TrimPrefix(q, dp)))
+			if fullSpelling {
+				dst = filepath.ToSlash(filepath.Join("/out", q))
+			}
 			b, ok := got[dst]
 			if !ok {
 				add("C04", n, st.Call, "restoring directory %s did not deliver %s (delivered %d files)", dp, q, len(got))
